@@ -85,7 +85,7 @@ const workerInnerWatchdog = time.Hour
 // memory guard inside the worker: a case that drives the heap beyond this is
 // reported as a death of class "memory-blowup" instead of endangering the
 // machine (16 shards share it).
-const workerMemLimit = 3 << 30
+const workerMemLimit = 2 << 30
 
 func inproc() bool { return os.Getenv("VERIF_C03_INPROC") != "" }
 
@@ -129,8 +129,10 @@ func TestWorker(t *testing.T) {
 		for {
 			time.Sleep(100 * time.Millisecond)
 			runtime.ReadMemStats(&ms)
-			if ms.HeapInuse+ms.StackInuse > workerMemLimit {
-				fmt.Fprintf(os.Stderr, "\nC03-WORKER-DEATH: memory-blowup heap=%d stack=%d limit=%d\n", ms.HeapInuse, ms.StackInuse, uint64(workerMemLimit))
+			if ms.HeapInuse > workerMemLimit {
+				fmt.Fprintf(os.Stderr, "\nC03-WORKER-DEATH: memory-blowup heap=%d stack=%d limit=%d\n\n", ms.HeapInuse, ms.StackInuse, uint64(workerMemLimit))
+				buf := make([]byte, 1<<20)
+				os.Stderr.Write(buf[:runtime.Stack(buf, true)])
 				os.Exit(3)
 			}
 		}
@@ -224,7 +226,7 @@ func startWorker() (*worker, error) {
 		return nil, err
 	}
 	cmd := exec.Command(os.Args[0], "-test.run", "^TestWorker$", "-test.timeout", "0")
-	cmd.Env = append(os.Environ(), "VERIF_C03_WORKER=1", "VERIF_C03_INPROC=1", "GOTRACEBACK=all", "VERIF_OUT=", "VERIF_REPLAY_FILE=")
+	cmd.Env = append(os.Environ(), "VERIF_C03_WORKER=1", "VERIF_C03_INPROC=1", "GOTRACEBACK=all", "GOMAXPROCS=4", "VERIF_OUT=", "VERIF_REPLAY_FILE=")
 	cmd.ExtraFiles = []*os.File{pw}
 	stdin, err := cmd.StdinPipe()
 	if err != nil {
@@ -293,26 +295,65 @@ const (
 	callDied
 )
 
+// procCPU returns the CPU time (user+system) a process has consumed so far.
+func procCPU(pid int) (time.Duration, bool) {
+	b, err := os.ReadFile(fmt.Sprintf("/proc/%d/stat", pid))
+	if err != nil {
+		return 0, false
+	}
+	// fields after the parenthesised command name
+	i := bytes.LastIndexByte(b, ')')
+	if i < 0 {
+		return 0, false
+	}
+	f := strings.Fields(string(b[i+1:]))
+	if len(f) < 13 {
+		return 0, false
+	}
+	var ut, st int64
+	fmt.Sscan(f[11], &ut)
+	fmt.Sscan(f[12], &st)
+	return time.Duration(ut+st) * (time.Second / 100), true // USER_HZ = 100
+}
+
+// call sends one request and waits for the answer.  The watchdog d is measured
+// in CPU time the worker consumed (scheduled time), so that an oversubscribed
+// machine cannot turn a slow case into a false wedge; a wall-clock backstop of
+// 15*d catches a worker that blocks without consuming CPU.
 func (w *worker) call(req workerReq, d time.Duration) (workerResp, callStatus) {
 	b, _ := json.Marshal(req)
 	b = append(b, '\n')
+	cpu0, haveCPU := procCPU(w.cmd.Process.Pid)
 	if _, err := w.stdin.Write(b); err != nil {
 		return workerResp{}, callDied
 	}
-	t := time.NewTimer(d)
-	defer t.Stop()
-	select {
-	case line, ok := <-w.lines:
-		if !ok {
-			return workerResp{}, callDied
+	start := time.Now()
+	tick := time.NewTicker(100 * time.Millisecond)
+	defer tick.Stop()
+	for {
+		select {
+		case line, ok := <-w.lines:
+			if !ok {
+				return workerResp{}, callDied
+			}
+			var resp workerResp
+			if err := json.Unmarshal(line, &resp); err != nil {
+				return workerResp{Failed: true, FailKey: "bad-response", FailMsg: err.Error()}, callOK
+			}
+			return resp, callOK
+		case <-tick.C:
+			wall := time.Since(start)
+			if haveCPU {
+				if cpu, ok := procCPU(w.cmd.Process.Pid); ok && cpu-cpu0 >= d {
+					return workerResp{}, callTimeout
+				}
+				if wall >= 15*d {
+					return workerResp{}, callTimeout
+				}
+			} else if wall >= d {
+				return workerResp{}, callTimeout
+			}
 		}
-		var resp workerResp
-		if err := json.Unmarshal(line, &resp); err != nil {
-			return workerResp{Failed: true, FailKey: "bad-response", FailMsg: err.Error()}, callOK
-		}
-		return resp, callOK
-	case <-t.C:
-		return workerResp{}, callTimeout
 	}
 }
 
@@ -356,64 +397,118 @@ func deathClass(stderr string) (class, line string) {
 	return "unknown", ""
 }
 
-// wedgeSite extracts, from a SIGQUIT goroutine dump, the elps function the
-// evaluating goroutine was in (innermost frame) and the builtin it entered.
-func wedgeSite(dump string) string {
-	// goroutine blocks are separated by blank lines; pick the one that runs the case
-	blocks := strings.Split(dump, "\n\n")
-	for _, b := range blocks {
-		if !strings.Contains(b, "created by github.com/luthersystems/elps/verifharness/c03.guarded") {
-			continue
+// caseGoroutine returns the block of a goroutine dump that belongs to the
+// goroutine evaluating the case (the one guarded() created).
+func caseGoroutine(dump string) string {
+	for _, b := range strings.Split(dump, "\n\n") {
+		if strings.Contains(b, "created by github.com/luthersystems/elps/verifharness/c03.guarded") {
+			return b
 		}
-		var funcs []string
-		for _, ln := range strings.Split(b, "\n") {
-			if strings.HasPrefix(ln, "github.com/luthersystems/elps/") && !strings.Contains(ln, "verifharness") {
-				fn := strings.TrimPrefix(ln, "github.com/luthersystems/elps/")
-				if i := strings.LastIndex(fn, "("); i > 0 {
-					fn = fn[:i]
-				}
-				if i := strings.LastIndex(fn, "/"); i >= 0 {
-					fn = fn[i+1:]
-				}
-				funcs = append(funcs, fn)
-			}
-		}
-		if len(funcs) == 0 {
-			continue
-		}
-		// the dominant function of the (elided) stack is the one recursing
-		count := map[string]int{}
-		best := funcs[0]
-		for _, f := range funcs {
-			if strings.Contains(f, "(*LEnv)") || strings.HasSuffix(f, "Eval-fm") {
-				continue
-			}
-			count[f]++
-			if count[f] > count[best] {
-				best = f
-			}
-		}
-		builtin := ""
-		for i := 1; i < len(funcs); i++ {
-			if strings.HasSuffix(funcs[i], "(*LEnv).call") {
-				builtin = funcs[i-1]
-				if strings.HasSuffix(builtin, "Eval-fm") && i >= 2 {
-					builtin = funcs[i-2]
-				}
-				break
-			}
-		}
-		if builtin != "" && builtin != best {
-			return best + " under " + builtin
-		}
-		return best
 	}
 	return ""
 }
 
+func elpsFuncs(block string) []string {
+	var funcs []string
+	for _, ln := range strings.Split(block, "\n") {
+		if strings.HasPrefix(ln, "github.com/luthersystems/elps/") && !strings.Contains(ln, "verifharness") {
+			fn := strings.TrimPrefix(ln, "github.com/luthersystems/elps/")
+			if i := strings.LastIndex(fn, "("); i > 0 {
+				fn = fn[:i]
+			}
+			if i := strings.LastIndex(fn, "/"); i >= 0 {
+				fn = fn[i+1:]
+			}
+			funcs = append(funcs, fn)
+		}
+	}
+	return funcs
+}
+
+// traversalFamily maps an interpreter function onto the value traversal it
+// belongs to; the family is the class signature of a wedge / death finding
+// (one root cause per traversal, however many builtins funnel into it).
+func traversalFamily(fn string) string {
+	switch {
+	case strings.Contains(fn, "(*LVal).Copy") || strings.Contains(fn, "copyCells") || strings.Contains(fn, "copyMapData") ||
+		strings.Contains(fn, "detachMeta") || strings.Contains(fn, "(*Location).Copy"):
+		return "copy"
+	case strings.Contains(fn, "(*LVal).str") || strings.Contains(fn, "exprString") || strings.Contains(fn, "stringGuard") ||
+		strings.Contains(fn, "sortedMapString") || strings.Contains(fn, "bodyStr") || strings.Contains(fn, "(*LVal).String"):
+		return "print"
+	case strings.Contains(fn, "(*LVal).equal") || strings.Contains(fn, "equalMapKey") || strings.Contains(fn, "pairGuard"):
+		return "equal"
+	case strings.Contains(fn, "doUnquoteSExpr") || strings.Contains(fn, "findAndUnquote"):
+		return "quasiquote"
+	case strings.Contains(fn, "builtinExport"):
+		return "export"
+	case strings.HasPrefix(fn, "libjson.(*encoder)"):
+		return "json-encode"
+	case strings.HasPrefix(fn, "libelpspath."):
+		return "elpspath"
+	case strings.Contains(fn, "stampMacroExpansion") || strings.Contains(fn, "stamp"):
+		return "macro-stamp"
+	case strings.HasPrefix(fn, "rdparser.") || strings.HasPrefix(fn, "lexer.") || strings.HasPrefix(fn, "token."):
+		return "reader"
+	case strings.Contains(fn, "(*LEnv)"):
+		return "eval"
+	}
+	return fn
+}
+
+// analyseDump finds, in a goroutine dump, the traversal family the case's
+// goroutine is dominated by, a human-readable site and the builtin entered.
+func analyseDump(dump string) (family, site string) {
+	block := caseGoroutine(dump)
+	if block == "" {
+		return "", ""
+	}
+	funcs := elpsFuncs(block)
+	if len(funcs) == 0 {
+		return "", ""
+	}
+	count := map[string]int{}
+	first := map[string]string{}
+	best := ""
+	for _, f := range funcs {
+		if strings.HasSuffix(f, "Eval-fm") {
+			continue
+		}
+		fam := traversalFamily(f)
+		count[fam]++
+		if _, ok := first[fam]; !ok {
+			first[fam] = f
+		}
+		// "eval" only wins when nothing else is present
+		if best == "" || (best == "eval" && fam != "eval") || (fam != "eval" && count[fam] > count[best]) {
+			best = fam
+		}
+	}
+	builtin := ""
+	for i := 1; i < len(funcs); i++ {
+		if strings.HasSuffix(funcs[i], "(*LEnv).call") {
+			builtin = funcs[i-1]
+			if (strings.HasSuffix(builtin, "Eval-fm") || strings.HasSuffix(builtin, ".Eval")) && i >= 2 {
+				builtin = funcs[i-2]
+			}
+			break
+		}
+	}
+	site = first[best]
+	if builtin != "" && builtin != site {
+		site += " under " + builtin
+	}
+	return best, site
+}
+
 // isolated evaluates one case in the worker process and maps worker failures
 // (timeout, death) onto violations after an isolated re-run.
-func isolated(sub string, c any, key string, ctx *vcommon.Ctx) *vcommon.Failure {
+// keyer builds the class signature of a wedge / death failure from its kind
+// ("wedge", "death/stack-overflow", ...) and the traversal family observed in
+// the worker's goroutine dump ("" when none could be identified).
+type keyer func(kind, family string) string
+
+func isolated(sub string, c any, key keyer, ctx *vcommon.Ctx) *vcommon.Failure {
 	raw, err := json.Marshal(c)
 	if err != nil {
 		return vcommon.Failf("bad-case", "cannot encode case: %v", err)
@@ -459,23 +554,22 @@ func isolated(sub string, c any, key string, ctx *vcommon.Ctx) *vcommon.Failure 
 			return nil
 		case callTimeout:
 			dump := w2.quitDump()
-			site := wedgeSite(dump)
-			if site == "" {
-				site = wedgeSite(firstDiag)
+			fam, site := analyseDump(dump)
+			if fam == "" {
+				fam, site = analyseDump(firstDiag)
 			}
-			return vcommon.Failf("wedge/"+key, "the case did not return within %v in the shard's worker, and again not within %v when re-run alone in a fresh process (limits: steps %d, deadline %v); spinning in %s\n%s",
-				watchdog, watchdogAlone, cfgMaxSteps, cfgDeadline, site, clip(relevantDump(dump), 2500))
+			return vcommon.Failf(key("wedge", fam), "the case did not return within %v of worker CPU time, and again not within %v of CPU time when re-run alone in a fresh process (limits: steps %d, deadline %v); spinning in %s\n%s",
+				watchdog, watchdogAlone, cfgMaxSteps, cfgDeadline, site, clip(caseGoroutine(dump), 2500))
 		default:
 			w2.kill()
 			diag := w2.stderr.String()
 			class, line := deathClass(diag)
-			if st == callTimeout {
-				// first a timeout, then a death: still a reproduced failure to return
-				class2, _ := deathClass(diag)
-				class = class2
+			fam, site := analyseDump(diag)
+			if fam == "" {
+				fam, site = analyseDump(firstDiag)
 			}
-			return vcommon.Failf("death/"+class+"/"+key, "the worker process was killed while running this case (%s), and again when the case was re-run alone in a fresh process\n%s",
-				line, clip(diag, 2500))
+			return vcommon.Failf(key("death/"+class, fam), "the worker process was killed while running this case (%s; in %s), and again when the case was re-run alone in a fresh process\n%s",
+				line, site, clip(diag, 2500))
 		}
 	}
 	resp.Rec.replayInto(ctx)
@@ -485,11 +579,3 @@ func isolated(sub string, c any, key string, ctx *vcommon.Ctx) *vcommon.Failure 
 	return nil
 }
 
-func relevantDump(dump string) string {
-	for _, b := range strings.Split(dump, "\n\n") {
-		if strings.Contains(b, "created by github.com/luthersystems/elps/verifharness/c03.guarded") {
-			return b
-		}
-	}
-	return dump
-}
